@@ -95,6 +95,20 @@ def run(ck: Check) -> None:
                 ck.oracle_checks += 1
                 if r3.impl != "E SignatureError":
                     ck.violation("signatures still count after the payload's JSON value was changed", {"original": proto.enc(env["signed"])[:500], "edited": proto.enc(edited)[:500], "impl": r3.impl}, "edit-still-verifies")
+            # re-signing after the payload changed: what the library's signing function produces must verify (C02), old entries of others stop counting
+            edited = mutate_value(rng, env["signed"] if not isinstance(env["signed"], tuple) else list(env["signed"]))
+            if edited is not None:
+                e3 = {"signatures": copy.deepcopy(env["signatures"]), "signed": edited}
+                rs = ck.run_cases([Case("sign", [e3, proto.KeyObj(True, ks[0].seed)], tag="re-sign-after-edit", group=i)], "corr:sign_signable/envelope")[0]
+                if rs.impl.startswith("V "):
+                    e4 = proto.dec(rs.impl[2:])
+                    rv = ck.run_cases([Case("vsignable", [e4, [ks[0].hex], 1, False], tag="re-signed-verifies", group=i),
+                                       Case("vsignable", [e4, [k.hex for k in ks], 2, False], tag="re-signed-others-stale", group=i)], "corr:verify_signable/outcome-class")
+                    ck.oracle_checks += 2
+                    if rv[0].impl != "OK":
+                        ck.violation("an envelope re-signed by the library after its payload changed does not verify under the signer's key", {"edited": proto.enc(edited)[:500], "impl": rv[0].impl}, "re-sign-after-edit")
+                    if rv[1].impl != "E SignatureError":
+                        ck.violation("signatures made before the payload changed still count after one signer re-signed", {"impl": rv[1].impl}, "stale-signatures-count")
             if nk >= 2:
                 ck.nontrivial_add((proto.enc(payload)[:200], tuple(k.idx for k in order2)))
     # wrong kinds of key
